@@ -583,6 +583,51 @@ impl Bdd {
     }
 }
 
+#[cfg(adf_obdd_verif)]
+impl Bdd {
+    /// Verification hook (read-only): copies of the private unique table and memo tables,
+    /// sorted by key, so that an external checker can audit them against the node table.
+    #[allow(clippy::type_complexity)]
+    pub fn verif_dump_tables(
+        &self,
+    ) -> (
+        Vec<(BddNode, Term)>,
+        Vec<((Term, Term, Term), Term)>,
+        Vec<((Term, Var, bool), Term)>,
+        Vec<(Term, CountNode)>,
+        Vec<Vec<Var>>,
+    ) {
+        let mut uniq: Vec<(BddNode, Term)> = self.cache.iter().map(|(k, v)| (*k, *v)).collect();
+        uniq.sort_by_key(|(_, v)| *v);
+        let mut ite: Vec<((Term, Term, Term), Term)> =
+            self.ite_cache.iter().map(|(k, v)| (*k, *v)).collect();
+        ite.sort();
+        let mut res: Vec<((Term, Var, bool), Term)> =
+            self.restrict_cache.iter().map(|(k, v)| (*k, *v)).collect();
+        res.sort();
+        let mut cnt: Vec<(Term, CountNode)> = self
+            .count_cache
+            .borrow()
+            .iter()
+            .map(|(k, v)| (*k, *v))
+            .collect();
+        cnt.sort_by_key(|(k, _)| *k);
+        #[cfg(feature = "variablelist")]
+        let deps: Vec<Vec<Var>> = self
+            .var_deps
+            .iter()
+            .map(|set| {
+                let mut v: Vec<Var> = set.iter().copied().collect();
+                v.sort();
+                v
+            })
+            .collect();
+        #[cfg(not(feature = "variablelist"))]
+        let deps: Vec<Vec<Var>> = Vec::new();
+        (uniq, ite, res, cnt, deps)
+    }
+}
+
 #[cfg(test)]
 mod test {
     use super::*;
